@@ -377,6 +377,9 @@ pub fn drive<F: Future>(
         let mut cx = Context::from_waker(&waker);
         let mut fut = pin!(fut);
         let mut idle = 0u32;
+        // a stall verdict must be confirmed: the same picture after five more idle bounds
+        // (a loaded machine delays kernel work; a real stall lasts for ever)
+        let mut confirmations = 0u32;
         let mut idle_since = Instant::now();
         // the last driver events, attached to a stall verdict as its history
         let mut recent: std::collections::VecDeque<String> = std::collections::VecDeque::new();
@@ -398,6 +401,7 @@ pub fn drive<F: Future>(
             if now != last {
                 last = now;
                 idle = 0;
+                confirmations = 0;
                 idle_since = Instant::now();
             } else if !remaining {
                 idle += 1;
@@ -406,6 +410,10 @@ pub fn drive<F: Future>(
                 match stall() {
                     Stall::KeepWaiting => idle = 0,
                     Stall::Finish => return None,
+                    Stall::Violation(_) if confirmations < 5 => {
+                        confirmations += 1;
+                        idle = 0;
+                    }
                     Stall::Violation(f) => {
                         let mut hist: Vec<String> = recent.iter().cloned().collect();
                         hist.push(format!("IDLE {} driver polls without progress took {} ms", idle, idle_since.elapsed().as_millis()));
